@@ -458,7 +458,7 @@ def check(case, obs, tally):
     # map instances to requests by the unique path tag
     by_tag = {}
     for inst, sc in starts.items():
-        m = re.match(rb"/t(\d+)", sc.get("raw_path") or b"")
+        m = re.match(rb"/+t(\d+)", sc.get("raw_path") or b"")
         by_tag.setdefault(int(m.group(1)) if m else -1, []).append(inst)
     head_delivered = []
     for r in reqs:
